@@ -147,7 +147,23 @@ struct Env {
     engine: Engine,
 }
 
-fn make_env() -> Env {
+/// A syntactically valid TAL (RIPE's public key) whose only trust anchor
+/// URI is unreachable; with rsync disabled nothing is ever fetched, so the
+/// store never holds a trust anchor certificate for it.
+const TAL: &str = "rsync://unreachable.invalid/ta/verif-ta.cer\n\n\
+MIIBIjANBgkqhkiG9w0BAQEFAAOCAQ8AMIIBCgKCAQEA0URYSGqUz2myBsOzeW1j\n\
+Q6NsxNvlLMyhWknvnl8NiBCs/T/S2XuNKQNZ+wBZxIgPPV2pFBFeQAvoH/WK83Hw\n\
+A26V2siwm/MY2nKZ+Olw+wlpzlZ1p3Ipj2eNcKrmit8BwBC8xImzuCGaV0jkRB0G\n\
+Z0hoH6Ml03umLprRsn6v0xOP0+l6Qc1ZHMFVFb385IQ7FQQTcVIxrdeMsoyJq9eM\n\
+kE6DoclHhF/NlSllXubASQ9KUWqJ0+Ot3QCXr4LXECMfkpkVR2TZT+v5v658bHVs\n\
+6ZxRD1b6Uk1uQKAyHUbn/tXvP8lrjAibGzVsXDT2L0x4Edx+QdixPgOji3gBMyL2\n\
+VwIDAQAB\n";
+
+/// `with_tal`: one TAL is configured (see [`TAL`]). A run in initial
+/// (store-only) mode then fails for real with a retryable error ("Initial
+/// quick validation failed: no trust anchor for TAL"), a regular run
+/// succeeds with no RPKI data ("No valid trust anchor for TAL").
+fn make_env(with_tal: bool) -> Env {
     let dir = tempfile::tempdir().expect("tempdir");
     let cache = dir.path().join("cache");
     std::fs::create_dir_all(&cache).expect("cache dir");
@@ -156,6 +172,12 @@ fn make_env() -> Env {
     );
     config.no_rir_tals = true;
     config.disable_rsync = true;
+    if with_tal {
+        let tals = dir.path().join("tals");
+        std::fs::create_dir_all(&tals).expect("tal dir");
+        std::fs::write(tals.join("verif.tal"), TAL).expect("tal file");
+        config.extra_tals_dir = Some(tals);
+    }
     config.validation_threads = 2;
     let mut engine = Engine::new(&config, true).expect("engine");
     engine.ignite().expect("ignite");
@@ -163,7 +185,10 @@ fn make_env() -> Env {
 }
 
 fn letter(o: &str) -> &'static str {
-    match o { "ok" => "o", "retry" => "r", "fatal" => "f", _ => "F" }
+    match o {
+        "ok" => "o", "retry" => "r", "fatal" => "f", "initial-real" => "I",
+        _ => "F"
+    }
 }
 
 fn gen_steps(rng: &mut rvcore::Rng, outcomes: &[&str], t0: u64) -> Vec<Value> {
@@ -243,6 +268,18 @@ fn generate(ctx: &mut Ctx) -> Vec<Value> {
         let steps = gen_steps(&mut rng, &seq, t0);
         res.push(json!({"keep": keep, "t0": [t0, 0], "steps": steps}));
     }
+    // Histories in an environment with one configured TAL whose trust
+    // anchor is not in the store: real initial-mode (store-only) runs fail
+    // for real (retryable), regular runs succeed and install the SLURM
+    // data.
+    let tal_max = if ctx.quick() && !ctx.search { 4 } else { 5 };
+    for seq in sequences(tal_max, &["ok", "initial-real", "retry"]) {
+        if !seq.contains(&"initial-real") { continue }
+        let mut rng = ctx.rng.fork();
+        let keep = *rng.pick(&[10u64, 1, 2]);
+        let steps = gen_steps(&mut rng, &seq, t0);
+        res.push(json!({"tal": true, "keep": keep, "t0": [t0, 0], "steps": steps}));
+    }
     res
 }
 
@@ -251,7 +288,10 @@ pub fn run_c33(ctx: &mut Ctx) {
         with several seeded choices of run times (same second / later, zero / non-zero \
         nanoseconds), data sets (unchanged / one item flipped / fresh subset of 5 origins, via \
         SLURM assertions) and history-size in {1,2,3,10}; plus random histories with real \
-        fatal failures (RRDP directory removed => cleanup fails after validation). \
+        fatal failures (RRDP directory removed => cleanup fails after validation); plus every \
+        history over {ok, initial-real, retry} of length <= 4 / 5 containing a real initial-mode \
+        run in an environment with one TAL whose trust anchor is not in the store (fails \
+        retryably for real). \
         non-trivial = a failed run after at least one successful run; distinct by (outcome \
         string, data changed before the failure, keep)".into();
     let inputs: Vec<Value> = match ctx.replay_inputs() {
@@ -259,7 +299,8 @@ pub fn run_c33(ctx: &mut Ctx) {
         None => generate(ctx),
     };
     log::set_max_level(log::LevelFilter::Info);
-    let env = make_env();
+    let env_plain = make_env(false);
+    let env_tal = make_env(true);
 
     for input in inputs {
         let Some(steps) = input["steps"].as_array() else {
@@ -269,6 +310,8 @@ pub fn run_c33(ctx: &mut Ctx) {
         let keep = input["keep"].as_u64().unwrap_or(10);
         let t0s = input["t0"][0].as_u64().unwrap_or(1_700_000_000);
         let t0n = input["t0"][1].as_u64().unwrap_or(0);
+        let with_tal = input["tal"].as_bool().unwrap_or(false);
+        let env = if with_tal { &env_tal } else { &env_plain };
         let mut config = env.config.clone();
         config.history_size = keep as usize;
         rvcore::clock::set(t0s as i64, t0n as i64);
@@ -306,7 +349,10 @@ pub fn run_c33(ctx: &mut Ctx) {
             }
             // The server passes `initial = true` for its first run only;
             // a real failure needs the collector, i.e. a non-initial run.
-            let initial = idx == 0 && !real;
+            // With a TAL configured, exactly the `initial-real` steps run in
+            // initial mode (and fail for real).
+            let initial = if with_tal { oc == "initial-real" }
+                          else { idx == 0 && !real };
             let res = Server::verif_process_once(
                 &config, &env.engine, &history, &mut notify, &exceptions,
                 initial
@@ -339,7 +385,7 @@ pub fn run_c33(ctx: &mut Ctx) {
                 ctx.count("failed-run-reported-ok");
             }
             if let Err(err) = res {
-                if err.is_fatal() != (oc != "retry") {
+                if err.is_fatal() != (oc == "fatal" || oc == "real-fatal") {
                     ctx.count("harness-fatality-mismatch");
                 }
             }
